@@ -41,7 +41,9 @@ CLAIMS = {
          "DESIGN.md 4 (C12, stage G)"),
  "C04": ("For 0-1 (thorough 0-2) controller-level and 0-2 method-level @Security annotations over 3 declared-or-not scheme names plus an undeclared one, 0-2 symbolic scopes, optional default security: "
          "the real ControllerMeta/ReceiverMeta.Reduce yields method-else-controller-else-default alternatives; both emitters document exactly those alternatives (scheme, scopes, order); every named scheme is declared under components.securitySchemes as configured; "
-         "an undeclared scheme makes both GenerateControllersSpec fail with no operation; validateSecurity rejects iff enforceSecurityOnAllRoutes and the route has no effective security.",
+         "an undeclared scheme makes both GenerateControllersSpec fail with no operation; validateSecurity rejects iff enforceSecurityOnAllRoutes and the route has no effective security. "
+         "Front end: @Security comments on controller and method (with and without scopes, two alternatives, hidden route), default security and the enforce flag, through the real visitors and pipeline. "
+         "End to end (second part of the check, generated code): the security the CLI built from /repo documents in the 3.0 and 3.1 files it writes for the second fixture project equals the fixture's effective security, which vh_C03_nd_* shows the five routers enforce.",
          "Bounds as coded in harness/.../generator/swagen/zz_verif_c04.go and core/validators/zz_verif_c10.go. annotations.GetCastProperty (reflection) is modelled by an engine intrinsic with its documented contract; the router side (SecurityCheckList) is C03.",
          "DESIGN.md 4 (C04)"),
  "C07": ("Emitter half: for a model list of two structs (one with up to 2 symbolic fields over 9 (thorough 11) type shapes incl. slices, maps, enum, alias, other struct, embedded struct, time, bytes; symbolic json tag and validate tag), an enum with 1-2 symbolic values and an alias, "
